@@ -485,6 +485,22 @@ def run_faults(cfg, out, props=None, tag="C05", profiles_pool=None, extra=None):
                     run.c.inc("huge_message_scenarios")
                 c.updates_per_step = ups
                 w.step(30)
+            # --- a lazy reader: the client application calls update() every frame but collects its messages only after a long while;
+            #     meanwhile the server sends it well over a thousand messages (some guaranteed, some with callbacks): every one of
+            #     them is in the inbox when the application finally looks
+            if run.open(c) and r.random() < 0.3:
+                c.collect_every = 10 ** 9
+                sc_ = run.sconn(c)
+                w.net.set(c2s=L.Policy(delay=(0.004, 0.004)), s2c=L.Policy(delay=(0.004, 0.004)))
+                for _t in range(60):
+                    for _k in range(22):
+                        run.app.send(sc_, "server", r.choice([11, 12, 30]), r.choice([0, 0, 0, -1]), with_cb=(_k % 5 == 0))
+                    w.step()
+                w.step(40)
+                run.c.inc("lazy_reader_phases")
+                run.c.inc("lazy_reader_uncollected_max", len(c.udp.conn.incoming_messages) if c.udp.conn is not None else 0)
+                c.collect_every = 1
+                w.step(10)
             # --- a long haul: with a message timeout of 2-3 s configured on both sides, a sustained round trip of 1.2-1.6 s is a
             #     working link (every ack arrives in time): many seconds of steady traffic both ways, measured latency above 0.5 s
             if run.open(c) and conf and conf[1] >= 2.0:
@@ -691,7 +707,7 @@ def finish(tier, seed, results):
                          "worlds_keep_alive_longer_than_message_timeout", "sends_from_connect_callback", "sends_from_send_callback",
                          "worlds_with_counters_near_wrap", "shared_callback_batches", "aged_sessions_fragment_ids_reused",
                          "gap_scenarios_over_32_datagrams", "reordered_ack_path_streams", "handler_raised_in_message", "client_disconnects_with_retransmissions_in_flight",
-                         "second_session_messages_ok", "worlds_with_three_clients", "mtu_raised", "mtu_lowered", "callbacks_raised", "first_callback_of_datagram_raised", "sends_while_connecting", "client_sendto_failed", "long_haul_latency_above_half_a_second", "same_length_bursts_without_references", "huge_message_scenarios", "realnet_guaranteed_delivered"], inconclusive)
+                         "second_session_messages_ok", "worlds_with_three_clients", "mtu_raised", "mtu_lowered", "callbacks_raised", "first_callback_of_datagram_raised", "sends_while_connecting", "client_sendto_failed", "long_haul_latency_above_half_a_second", "same_length_bursts_without_references", "huge_message_scenarios", "realnet_guaranteed_delivered", "lazy_reader_phases"], inconclusive)
     cov = {
         "evaluations": m["evaluations"],
         "distinct_nontrivial": m["distinct_nontrivial"],
